@@ -44,8 +44,9 @@ type seams struct {
 		Kind string `json:"kind"`
 		Pos  string `json:"pos"`
 	} `json:"accesses"`
-	Funcs     []string `json:"funcs"`
-	TickSites []string `json:"tick_sites"`
+	Funcs      []string `json:"funcs"`
+	TickSites  []string `json:"tick_sites"`
+	DeferFirst []int    `json:"defer_first"`
 }
 
 var (
@@ -74,6 +75,12 @@ func loadSeams(path string) {
 	for i, f := range s.Funcs {
 		if strings.HasPrefix(f, "internal/monitor.") {
 			simrt.NoFaultFn[i] = true
+		}
+	}
+	simrt.NoEntryFault = make([]bool, len(s.Funcs))
+	for _, id := range s.DeferFirst {
+		if id >= 0 && id < len(s.Funcs) {
+			simrt.NoEntryFault[id] = true
 		}
 	}
 	simrt.TickNames = s.TickSites
@@ -178,9 +185,70 @@ func deepEdges(e [][]string) [][]string {
 	return out
 }
 
-func buildArgs(c *spec.Call, mon any) (*args, error) {
+const spareMark = "\x00zzverif-spare-capacity"
+
+// callerEdges builds the edge list the way a caller might own it: as a sub-slice of a larger backing array. The spare
+// capacity behind the outer slice and behind every inner slice belongs to the caller too; it is filled with a marker
+// and compared after the call (an append into it is a write into the caller's memory that len-based comparison misses).
+func callerEdges(e [][]string) [][]string {
+	out := make([][]string, len(e), len(e)+3)
+	for i := range e {
+		in := make([]string, len(e[i]), len(e[i])+2)
+		copy(in, e[i])
+		sp := in[:cap(in)]
+		for j := len(in); j < len(sp); j++ {
+			sp[j] = spareMark
+		}
+		out[i] = in
+	}
+	sp := out[:cap(out)]
+	for j := len(out); j < len(sp); j++ {
+		sp[j] = []string{spareMark}
+	}
+	return out
+}
+
+func spareTouched(src [][]string) string {
+	sp := src[:cap(src)]
+	for j := len(src); j < len(sp); j++ {
+		if len(sp[j]) != 1 || sp[j][0] != spareMark {
+			return fmt.Sprintf("spare capacity of the caller's edge list (index %d, beyond len %d) was overwritten", j, len(src))
+		}
+	}
+	for i := range src {
+		in := src[i][:cap(src[i])]
+		for j := len(src[i]); j < len(in); j++ {
+			if in[j] != spareMark {
+				return fmt.Sprintf("spare capacity of the caller's edge %d (index %d, beyond len %d) was overwritten with %q", i, j, len(src[i]), in[j])
+			}
+		}
+	}
+	return ""
+}
+
+// buildArgs builds the arguments of a call. Option constructors are library code, so in the instrumented build they run
+// as a simulated task of their own: a constructor that reads the clock or draws entropy gets run-spec values - the same
+// ones whenever the arguments of this call are built (for a solo reference as for the concurrent run), never the real
+// clock. The set-up clock is deliberately not a resolution dimension: two Option values built at different times are
+// different arguments, and the properties only speak about calls with the same arguments.
+func buildArgs(c *spec.Call, mon any) (a *args, err error) {
+	if isReal || simrt.Cur() != nil {
+		return buildArgsRaw(c, mon)
+	}
+	g := simrt.NewGroup(-1, simrt.GroupCfg{Adv: "identity", T0: 1_700_000_000_000_000_000, Entropy: 0x5e7, NSites: nSites})
+	t := simrt.RunSolo(g, func() { a, err = buildArgsRaw(c, mon) })
+	if t.Panic != nil {
+		return nil, fmt.Errorf("building the arguments panicked: %v", t.Panic)
+	}
+	if a == nil && err == nil {
+		return nil, fmt.Errorf("building the arguments did not finish")
+	}
+	return a, err
+}
+
+func buildArgsRaw(c *spec.Call, mon any) (*args, error) {
 	a := &args{}
-	a.src = graph.EdgeSlice(deepEdges(c.Edges))
+	a.src = graph.EdgeSlice(callerEdges(c.Edges))
 	o := c.Opts
 	switch o.P1 {
 	case "":
@@ -301,6 +369,9 @@ func (a *args) mutated() string {
 				return fmt.Sprintf("edge %d element %d changed %q -> %q", i, j, a.snapSrc[i][j], a.src[i][j])
 			}
 		}
+	}
+	if m := spareTouched(a.src); m != "" {
+		return m
 	}
 	if a.sizes != nil {
 		if len(a.sizes) != len(a.snapSz) {
@@ -440,7 +511,7 @@ type execCtx struct {
 
 func groupCfg(job *spec.Job, c *spec.Call, r *spec.Resolution) (simrt.GroupCfg, error) {
 	cfg := simrt.GroupCfg{
-		Adv: r.Adv, AdvSeed: r.AdvSeed, T0: r.T0, Rate: r.Rate, Entropy: r.Entropy,
+		Adv: r.Adv, AdvSeed: r.AdvSeed, T0: r.T0, Rate: r.Rate, Entropy: r.Entropy, ClockPerRead: r.ClockPerRead || job.Kind == "conc",
 		TickBudget: job.Budgets.Ticks, FrameBudget: job.Budgets.Frame, DepthBudget: job.Budgets.Depth, ByteBudget: job.Budgets.Bytes,
 		PanicAtTick: c.PanicAtTick, RecordPerms: job.RecordPerms, NSites: nSites,
 	}
@@ -489,6 +560,9 @@ func prepare(ec *execCtx, c *spec.Call, a *args, g *simrt.Group, mon *recMon) (b
 		oc.Bytes = g.PeakBytes
 		oc.Trace = strconv.FormatUint(g.Trace(), 16)
 		oc.ClockReads = g.ClockReads
+		if g.ClockReads > 0 {
+			oc.ClockHash = strconv.FormatUint(g.ClockHash, 16)
+		}
 		oc.ArgsMutated = a.mutated()
 		oc.LeakedTasks = t.LiveOthersAtEnd
 		oc.Tasks = g.NTasks
@@ -760,6 +834,10 @@ func runHistory(job *spec.Job) spec.Result {
 		}
 		ec := &execCtx{job: job, hist: h, callIdx: i}
 		oc := runOne(ec, c, a, r, mon)
+		for rep := 1; rep < c.Repeat && oc.Verdict == "OK"; rep++ {
+			a.snapshot()
+			oc = runOne(ec, c, a, r, mon)
+		}
 		res.Outcomes = append(res.Outcomes, oc)
 		if oc.Verdict == "FATAL" || oc.Verdict == "HARNESS" || ((oc.Verdict == "BUDGET" || oc.Verdict == "DEADLOCK") && oc.Tasks > 1) {
 			// the process would be dead (or, for an aborted multi-goroutine call, in an undefined state):
@@ -805,10 +883,17 @@ func runConc(job *spec.Job) spec.Result {
 		finish func(*simrt.Task) spec.Outcome
 	}
 	var slots []slot
+	builtConc := make([]*args, len(job.Calls))
 	for i := range job.Calls {
 		a, err := buildArgs(&job.Calls[i], nil)
 		if err != nil {
 			return spec.Result{Error: err.Error()}
+		}
+		builtConc[i] = a
+		if so := job.Calls[i].ShareOpts; so != nil && *so >= 0 && *so < i {
+			// same Option values (and the size map they capture) as an earlier caller; the source stays this caller's own
+			a.opts, a.sizes = builtConc[*so].opts, builtConc[*so].sizes
+			a.snapshot()
 		}
 		cfg, err := groupCfg(job, &job.Calls[i], resOf(i))
 		if err != nil {
@@ -885,10 +970,14 @@ func accName(acc, kind int) string {
 // ---------------------------------------------------------------------------------------------
 // real-thread stress (adjunct oracle; meant for the un-instrumented -race build)
 
-func plainCall(c *spec.Call) (oc spec.Outcome) {
+func plainCall(c *spec.Call, shared *args) (oc spec.Outcome) {
 	a, err := buildArgs(c, nil)
 	if err != nil {
 		return spec.Outcome{Verdict: "HARNESS", Detail: err.Error()}
+	}
+	if shared != nil {
+		a.opts, a.sizes = shared.opts, shared.sizes
+		a.snapshot()
 	}
 	defer func() {
 		if r := recover(); r != nil {
@@ -912,13 +1001,13 @@ func runStress(job *spec.Job) spec.Result {
 	var res spec.Result
 	// sequential references
 	for i := range job.Calls {
-		res.Solo = append(res.Solo, plainCall(&job.Calls[i]))
+		res.Solo = append(res.Solo, plainCall(&job.Calls[i], nil))
 	}
 	if job.Goroutines <= 1 {
 		// repeated sequential calls (C07 real-runtime adjunct): Rounds extra calls per input
 		for r := 0; r < job.Rounds; r++ {
 			for i := range job.Calls {
-				oc := plainCall(&job.Calls[i])
+				oc := plainCall(&job.Calls[i], nil)
 				if job.Calls[i].Opts.P1 == "greedy-random" {
 					continue
 				}
@@ -930,6 +1019,14 @@ func runStress(job *spec.Job) spec.Result {
 		}
 		return res
 	}
+	sharedArgs := make([]*args, len(job.Calls))
+	if job.ShareOpts {
+		for i := range job.Calls {
+			if a, err := buildArgs(&job.Calls[i], nil); err == nil {
+				sharedArgs[i] = a
+			}
+		}
+	}
 	var wg sync.WaitGroup
 	var mu sync.Mutex
 	start := make(chan struct{})
@@ -940,7 +1037,7 @@ func runStress(job *spec.Job) spec.Result {
 			<-start
 			for r := 0; r < job.Rounds; r++ {
 				i := (gi + r) % len(job.Calls)
-				oc := plainCall(&job.Calls[i])
+				oc := plainCall(&job.Calls[i], sharedArgs[i])
 				if job.Calls[i].Opts.P1 == "greedy-random" {
 					continue // clock-seeded by design: runs for the race detector's benefit, results are not comparable
 				}
